@@ -1032,41 +1032,55 @@ pub fn run(prop: &'static str, tier: &str, shard: Option<&str>) -> Report {
     if want("closure-12") && (!tagged || thorough) {
         closure::<Big1024>(&mut rep, &mk(3 * PAGE, &small)); // cap 12
     }
-    // Sweeps on native element types.
+    // Sweeps on native element types. Shard names: "native-<type>x<pages>",
+    // optionally with "@k/n": the offsets congruent to k modulo n (thorough
+    // sweeps start from every ring offset).
+    let (nat_name, nat_slice): (Option<&str>, (usize, usize)) = match shard {
+        Some(s) if s.starts_with("native-") => {
+            let (name, sl) = match s.split_once('@') {
+                Some((a, b)) => {
+                    let (k, n) = b.split_once('/').unwrap();
+                    (a, (k.parse().unwrap(), n.parse().unwrap()))
+                }
+                None => (s, (0, 1)),
+            };
+            (Some(name), sl)
+        }
+        _ => (None, (0, 1)),
+    };
     macro_rules! native {
-        ($t:ty, $pages:expr) => {{
-            let size = $pages * PAGE;
-            let cap = size / std::mem::size_of::<$t>();
-            let mut offs: Vec<usize> = vec![0, 1, 2, cap / 2 - 1, cap / 2, cap - 3, cap - 2, cap - 1];
-            if thorough {
-                offs = (0..cap).collect();
-            }
-            let depth = if thorough && cap > 512 { 2 } else { 3 };
-            let cfg = mk(size, &small);
-            sweep::<$t>(&mut rep, &cfg, &offs, &[0, 1, cap - 1, cap], if tagged { depth.min(2) } else { depth });
-            if thorough && cap > 512 {
-                let b: Vec<usize> = vec![0, 1, 2, cap / 2, cap - 3, cap - 2, cap - 1];
-                sweep::<$t>(&mut rep, &cfg, &b, &[0, 1, 2, cap - 2, cap - 1, cap], 3);
+        ($t:ty, $pages:expr, $name:expr, $quick:expr) => {{
+            let on = match (shard, nat_name) {
+                (None, _) => $quick || thorough,
+                (Some(_), Some(n)) => n == $name && ($quick || thorough),
+                _ => false,
+            };
+            if on {
+                let size = $pages * PAGE;
+                let cap = size / std::mem::size_of::<$t>();
+                let mut offs: Vec<usize> = vec![0, 1, 2, cap / 2 - 1, cap / 2, cap - 3, cap - 2, cap - 1];
+                if thorough {
+                    offs = (0..cap).filter(|o| o % nat_slice.1 == nat_slice.0).collect();
+                }
+                let depth = if thorough { 2 } else { 3 };
+                let cfg = mk(size, &small);
+                sweep::<$t>(&mut rep, &cfg, &offs, &[0, 1, cap - 1, cap], if tagged { depth.min(2) } else { depth });
+                if thorough && nat_slice.0 == 0 {
+                    let b: Vec<usize> = vec![0, 1, 2, cap / 2 - 1, cap / 2, cap - 3, cap - 2, cap - 1];
+                    sweep::<$t>(&mut rep, &cfg, &b, &[0, 1, 2, cap - 2, cap - 1, cap], 3);
+                }
             }
         }};
     }
-    if want("native-a") {
-        native!(u8, 1);
-        native!(u16, 1);
-    }
-    if want("native-b") {
-        native!(f32, 1);
-        native!(u32, 2);
-        native!(rustradio::Complex, 1);
-    }
-    if want("native-c") {
-        native!(u64, 2);
-        native!(u128, 1);
-        if thorough {
-            native!(u8, 2);
-            native!(u128, 3);
-        }
-    }
+    native!(u8, 1, "native-u8x1", true);
+    native!(u16, 1, "native-u16x1", true);
+    native!(f32, 1, "native-f32x1", true);
+    native!(u32, 2, "native-u32x2", true);
+    native!(rustradio::Complex, 1, "native-complexx1", true);
+    native!(u64, 2, "native-u64x2", true);
+    native!(u128, 1, "native-u128x1", true);
+    native!(u8, 2, "native-u8x2", false);
+    native!(u128, 3, "native-u128x3", false);
     if want("nondividing") && !tagged {
         nondividing::<[u8; 3]>(&mut rep, &mk(PAGE, &small));
         nondividing::<[u8; 12]>(&mut rep, &mk(PAGE, &small));
@@ -1080,13 +1094,19 @@ pub fn run(prop: &'static str, tier: &str, shard: Option<&str>) -> Report {
     rep
 }
 
-pub const SHARDS: [&str; 8] = [
+pub const SHARDS: [&str; 14] = [
     "closure-small",
     "closure-4",
     "closure-6",
     "closure-12",
-    "native-a",
-    "native-b",
-    "native-c",
+    "native-u8x1",
+    "native-u16x1",
+    "native-f32x1",
+    "native-u32x2",
+    "native-complexx1",
+    "native-u64x2",
+    "native-u128x1",
+    "native-u8x2",
+    "native-u128x3",
     "nondividing",
 ];
